@@ -31,7 +31,7 @@ var c05Arenas struct {
 
 func c05BuildInfo(secs []c05Section, strtabIdx int, r *vlib.Rand) uintptr {
 	if c05Arenas.info == nil {
-		c05Arenas.info = vlib.MustArena(0, 1<<16, false)
+		c05Arenas.info = vlib.MustArena(0, 1<<17, false)
 		c05Arenas.strtab = vlib.MustArena(0, 1<<14, false)
 	}
 	// string table: NUL-terminated names, first byte NUL
@@ -81,7 +81,7 @@ type c05Want struct {
 func TestVerifC05(t *testing.T) {
 	run := vlib.Start(t, "C05")
 	defer run.Finish()
-	run.SetRule("case = generated ELF-sections tag (0-12 page-disjoint sections of 1 byte .. 40 pages, aligned or not, all 8 flag combinations, below and above the kernel offset) + 0-6 early reservations of 1-20 pages (one case in 40: one of them 511-1100 pages, spanning whole page tables) made through the real EarlyReserveRegion+Map, then the real vmm.Init(offset) on the software MMU, optionally with the frame allocator failing at the k-th request. non-trivial = Init succeeded with >=2 mapped sections of differing W/X flags, >=1 section below the offset and >=1 early reservation; distinct = fingerprint of (offset, sections, reservations)")
+	run.SetRule("case = generated ELF-sections tag (0-12 page-disjoint sections of 1 byte .. 40 pages, aligned or not, all 8 flag combinations, below and above the kernel offset; one case in 100 with 1012-1400 empty section headers in front, so that the loaded sections sit at and beyond index 1024) + 0-6 early reservations of 1-20 pages (one case in 40: one of them 511-1100 pages, spanning whole page tables) made through the real EarlyReserveRegion+Map, then the real vmm.Init(offset) on the software MMU, optionally with the frame allocator failing at the k-th request. non-trivial = Init succeeded with >=2 mapped sections of differing W/X flags, >=1 section below the offset and >=1 early reservation; distinct = fingerprint of (offset, sections, reservations)")
 	run.Assume("sections do not share a page with one another (as the linker script lays them out); section flags beyond W/A/X are zero; privileged instructions stubbed at the seams as in C04")
 	m := vmNewMMU()
 	restore := m.install()
@@ -142,6 +142,18 @@ func TestVerifC05(t *testing.T) {
 			j := r.Intn(len(secs))
 			secs[j], secs[strtabIdx] = secs[strtabIdx], secs[j]
 			strtabIdx = j
+		}
+		if r.Chance(1, 100) {
+			// a kernel linked with a section per function: more than a thousand headers, most of them
+			// empty here, the loaded sections at and beyond index 1024
+			k := r.Range(1024-len(secs), 1030)
+			if r.Chance(1, 3) {
+				k = r.Range(1031, 1400)
+			}
+			many := make([]c05Section, k, k+len(secs))
+			secs = append(many, secs...)
+			strtabIdx += k
+			run.Count("section_tables_with_more_than_1024_headers", 1)
 		}
 		multiboot.SetInfoPtr(c05BuildInfo(secs, strtabIdx, r))
 
